@@ -20,7 +20,7 @@ package main
 //     per probe (tls.Unmarshal of the extra data into a T, or a verified predicate helper) and per
 //     way of not matching (decoder error; decoded but bytes left over), from the probe up to the next
 //     probe nothing of the module is called, the leaf is not written and no return may yield nil.
-//  3. c14LayoutAsked — "every layout gets its turn": with all other layouts not matching, no verdict
+//  3. c14LayoutTurn — "every layout gets its turn": with all other layouts not matching, no verdict
 //     (return) is reached before the probe of the remaining layout has run.
 //
 // All three use c14Exec, an execution of the SSA that follows one path at a time: a φ is the value
@@ -569,6 +569,8 @@ func (x *c14Exec) describe(rv *c14RetVal) string {
 		what = "no error value"
 	} else if rv.status == "nil" {
 		what = "nil"
+	} else if rv.status == "non" {
+		what = "an error (" + shortErr(x.r.D.D(rv.val)) + ")"
 	} else {
 		what += " (" + shortErr(x.r.D.D(rv.val)) + ")"
 	}
@@ -761,12 +763,12 @@ func c14LayoutExact(r *Run, fix *ssa.Function, probes []c14Probe, stores []*ssa.
 	}
 }
 
-// c14LayoutAsked (C14.R3): every layout gets its turn — with each of the other layouts not matching
+// c14LayoutTurn (C14.R3): every layout gets its turn — with each of the other layouts not matching
 // (all by decoder error, all by left-over bytes), no return is reached from the entry of FixLogLeaf
 // before the probe of layout q has run.  A helper that answers "not mine" with a verdict of its own
 // (an error, or a success) takes the turn away from the layouts behind it: entries stored with their
 // full chain would no longer be served.
-func c14LayoutAsked(r *Run, fix *ssa.Function, probes []c14Probe) {
+func c14LayoutTurn(r *Run, fix *ssa.Function, probes []c14Probe) {
 	for qi, q := range probes {
 		key := "FixLogLeaf:layout-turn:" + q.typ
 		for round, name := range []string{"decode-error", "trailing-bytes"} {
@@ -873,4 +875,53 @@ func c14StoredChainTrailing(r *Run, fix *ssa.Function, stores []*ssa.Store) int 
 		r.Check("FixLogLeaf:stored-chain-trailing-data", ok, r.Where(c), "bytes after the stored issuance chain are an error and the leaf stays as it is "+why)
 	}
 	return n
+}
+
+// c14RewriteFinal (C14.R3): a rewrite is the verdict — once leaf.ExtraData has been replaced by the
+// re-inflated structure, no layout is probed again (the new bytes would be read as one of the other
+// layouts) and every return that may execute yields nil.
+func c14RewriteFinal(r *Run, fix *ssa.Function, probes []c14Probe, stores []*ssa.Store) {
+	stop := map[*ssa.BasicBlock]bool{}
+	for _, p := range probes {
+		stop[p.call.Block()] = true
+	}
+	for _, st := range stores {
+		// a probe that follows the store inside its own block
+		again := ""
+		for _, p := range probes {
+			if p.call.Block() == st.Block() && instrIdx(p.call) > instrIdx(st) {
+				again = r.Where(p.call)
+			}
+		}
+		x := c14Run(r, fix, Sigma{}, st.Block(), stop)
+		ok, detail := true, "after the rewrite of leaf.ExtraData no layout is probed again and FixLogLeaf returns nil"
+		switch {
+		case x.Over:
+			ok, detail = false, "undecided: too many paths through "+FuncName(fix)
+		case again != "" || len(x.Stopped) > 0:
+			if again == "" {
+				for _, b := range fix.Blocks {
+					if x.Stopped[b] && again == "" {
+						again = r.P.Pos(b.Instrs[0].Pos())
+						for _, p := range probes {
+							if p.call.Block() == b {
+								again = r.Where(p.call)
+							}
+						}
+					}
+				}
+			}
+			ok, detail = false, "after the rewrite of leaf.ExtraData the extra data is probed again at "+again+": the re-inflated bytes would be read as another layout"
+		case len(x.Rets) == 0:
+			ok, detail = false, "undecided: no return is reachable after the rewrite of leaf.ExtraData"
+		default:
+			for i := range x.Rets {
+				if x.Rets[i].status != "nil" {
+					ok, detail = false, "after the rewrite of leaf.ExtraData "+x.describe(&x.Rets[i])+" (expected nil: the leaf was fixed)"
+					break
+				}
+			}
+		}
+		r.Check("FixLogLeaf:rewrite-is-final", ok, r.Where(st), detail)
+	}
 }
